@@ -368,7 +368,7 @@ def validate(
         work = scratch("verif_tv_")
         try:
             tf = work / "traces.json"
-            tf.write_text(json.dumps(trs))
+            tf.write_text(json.dumps([{"cfg": t["cfg"], "ev": t["ev"]} for t in trs]))
             cmd = _java(heap=heap) + [
                 "-workers",
                 "1",
